@@ -11,6 +11,7 @@ import (
 	"fmt"
 	"hash"
 	"sort"
+	"strings"
 
 	"perkeep.org/pkg/blob"
 )
@@ -158,7 +159,7 @@ func (u *Universe) CursorRank(s string) int {
 // equivalent strings: 0 = canonical ("" / the ref / ref+"!"), 1 = a proper
 // prefix of the next ref that still sorts after the previous one (odd ranks
 // only; falls back to form 0), 2 = StringMinusOne of the next ref when that
-// sorts in the gap.
+// sorts in the gap, 3 / 4 / 5 = the next ref's hash name with "-" and 0 / 2 / 4 digits when that sorts in the gap.
 // Rank 0 is "" (only the empty cursor sorts before everything incl. rank 1
 // strings; rank 1 = strictly before the first ref but non-empty).
 func (u *Universe) CursorString(rank, form int) string {
@@ -198,6 +199,11 @@ func (u *Universe) CursorString(rank, form int) string {
 		}
 	case 2:
 		c = u.Blobs[i].Ref.StringMinusOne()
+	case 3, 4, 5:
+		// the prefixes a directory-sharded store names its directories with: "<hash>-", "<hash>-xx", "<hash>-xxxx"
+		if d := strings.IndexByte(next, '-'); d > 0 && d+1+2*(form-3) <= len(next) {
+			c = next[:d+1+2*(form-3)]
+		}
 	}
 	if c != "" && c > prev && c < next {
 		return c
